@@ -6,6 +6,7 @@ import (
 	"github.com/cronokirby/saferith"
 	"github.com/taurusgroup/multi-party-sig/internal/params"
 	"github.com/taurusgroup/multi-party-sig/pkg/math/curve"
+	"github.com/taurusgroup/multi-party-sig/pkg/math/sample"
 	"github.com/taurusgroup/multi-party-sig/internal/vsym"
 	"github.com/taurusgroup/multi-party-sig/pkg/hash"
 )
@@ -253,6 +254,65 @@ func H_C13_SenderShape() {
 	vsym.Assert(!panicked, "a receiver message with absent parts never crashes the sender")
 	vsym.Assert(panicked || err != nil, "a receiver message with absent parts is refused")
 	vsym.Reach("sender-shape-checked")
+}
+
+// H_C13_MultiplyCheck: the integrity check of MultiplyReceiver.Round2 covers EVERY gadget position. The receiver's state
+// is constructed directly (40 transfers); a sender message is completed so that the check equation
+// result_i0*chi0 + result_i1*chi1 = choice_i*UCheck - RCheck_i holds at every position (it is accepted), and then the check
+// value of ONE position — any of the 40, chosen per path — is altered: Round2 must report an error.
+func H_C13_MultiplyCheck() {
+	group := curve.Secp256k1{}
+	nb := 5
+	batch := 8 * nb
+	choices := []byte{0x5a, 0xc3, 0x0f, 0xa1, 0x96}
+	sc := func(v uint64) curve.Scalar { return group.NewScalar().SetNat(new(saferith.Nat).SetUint64(v)) }
+	mkAdd := func() *AdditiveOTReceiver {
+		res := &ExtendedOTReceiveResult{_VChoices: make([][params.OTBytes]byte, batch)}
+		for i := range res._VChoices {
+			res._VChoices[i][0] = byte(i + 1)
+		}
+		return &AdditiveOTReceiver{ctxHash: hash.New(), group: group, choices: choices, result: res}
+	}
+	mkPads := func() *AdditiveOTSendRound1Message {
+		m := &AdditiveOTSendRound1Message{CombinedPads: make([][2][]byte, batch)}
+		for i := range m.CombinedPads {
+			m.CombinedPads[i][0], _ = sc(uint64(100 + i)).MarshalBinary()
+			m.CombinedPads[i][1], _ = sc(uint64(300 + i)).MarshalBinary()
+		}
+		return m
+	}
+	gadget := make([]curve.Scalar, batch)
+	for i := range gadget {
+		gadget[i] = sc(uint64(i + 2))
+	}
+	mkRecv := func() *MultiplyReceiver {
+		return &MultiplyReceiver{ctxHash: hash.New(), group: group, beta: sc(7), gadget: gadget, choices: choices, receiver: mkAdd()}
+	}
+	// what the receiver will compute from the pads, and the check randomness it will derive
+	result, err := mkAdd().Round2(mkPads())
+	vsym.Assume(err == nil)
+	digest := hash.New().Fork(&hash.BytesWithDomain{TheDomain: "Multiply Chi Sampling", Bytes: nil}).Digest()
+	chi0 := sample.Scalar(digest, group)
+	chi1 := sample.Scalar(digest, group)
+	ucheck := sc(424242)
+	rcheck := make([]curve.Scalar, batch)
+	for i := range rcheck {
+		left := group.NewScalar().Set(result[i][0]).Mul(chi0).Add(group.NewScalar().Set(result[i][1]).Mul(chi1))
+		right := group.NewScalar()
+		if bitAt(i, choices) == 1 {
+			right.Set(ucheck)
+		}
+		rcheck[i] = right.Sub(left)
+	}
+	_, err = mkRecv().Round2(&MultiplySendRound1Message{Msg: mkPads(), RCheck: rcheck, UCheck: ucheck})
+	vsym.Assert(err == nil, "a message that satisfies the check equation at every position is accepted")
+	pos := vsym.Choose("position", batch)
+	bad := make([]curve.Scalar, batch)
+	copy(bad, rcheck)
+	bad[pos] = group.NewScalar().Set(rcheck[pos]).Add(sc(1))
+	_, err = mkRecv().Round2(&MultiplySendRound1Message{Msg: mkPads(), RCheck: bad, UCheck: ucheck})
+	vsym.Assert(err != nil, "a check value altered at any single position is detected")
+	vsym.Reach("multiply-check-checked")
 }
 
 // H_C13_FieldOps: eq is equality and shl1 is a one-bit left shift of the 256-bit little-endian value.
